@@ -426,4 +426,16 @@ theorem parseLoop_tree (c : PCtx) {t : Tree} {vs : List View} (h : TreeViews t v
       rw [ih next fuel (node :: acc) hvn (by rw [List.length_append] at hf; omega)]
       simp
 
+/-- non-vacuity: `# h`, `x := "a"`, EOF -/
+example (c : PCtx) :
+    parseLoop c 6 [⟨.hash, [asc HASH], 0, 1, 0⟩, ⟨.comment, [asc 104], 1, 1, 0⟩, ⟨.ident, [asc 120], 3, 2, 0⟩,
+      ⟨.declare, [asc COLON, asc EQUALS], 5, 2, 0⟩, ⟨.string, [asc QUOTE, asc 97, asc QUOTE], 8, 2, 0⟩, ⟨.eof, [], 11, 2, 0⟩] [] =
+    ([.comment [asc 104], .assign [asc 120] (.str [asc 97])], none) := by
+  have h : TreeViews [.comment [asc 104], .assign [asc 120] (.str [asc 97])]
+      ([vHash, (.comment, [asc 104])] ++ ([(.ident, [asc 120]), vDeclare, (.string, asc QUOTE :: [asc 97] ++ [asc QUOTE])] ++ [vEOF])) :=
+    TreeViews.cons _ _ _ _ rfl trivial
+      (TreeViews.cons _ _ _ _ rfl (by intro r hr; simp at hr; subst hr; decide) TreeViews.nil (by intro h; cases h))
+      (by intro _ n2 h2; cases h2; rfl)
+  exact parseLoop_tree c h _ 6 [] rfl (by decide)
+
 end Spok
